@@ -30,7 +30,12 @@ pub struct Case { pub req: Req, pub plain: Plain, pub chunks: Vec<usize>, pub po
     /// one more wiring: the password is typed at a (pseudo-)terminal instead of read from KESTREL_PASSWORD
     #[serde(default)] pub typed: bool,
     /// further wirings whose -o target is not a regular file: 1 = /dev/stdout with stdout a pipe, 2 = a named pipe somebody reads, 3 = /dev/null
-    #[serde(default)] pub out_kinds: Vec<u8> }
+    #[serde(default)] pub out_kinds: Vec<u8>,
+    /// further wirings whose FILE operand is not a regular file: 1 = a named pipe fed by a writer, 2 = /dev/stdin with stdin a pipe, 3 = a symbolic link to the file, 4 = the file by absolute path
+    #[serde(default)] pub in_kinds: Vec<u8>,
+    /// 1: the keyring also holds entries whose names begin with / are the beginning of the names used ("bobby" before "bob", "al" ...);
+    /// 2: the sender's entry has a 99-character name and another entry is named like its first 60 characters
+    #[serde(default)] pub names: u8 }
 
 pub fn wiring_from(i: usize) -> Wiring { Wiring { stdin_in: i & 1 != 0, stdout_out: i & 2 != 0, env_keyring: i & 4 != 0, short_opts: i & 8 != 0, alias: i & 16 != 0, opts_first: i & 32 != 0 } }
 const PW: &str = "c12 file password";
@@ -69,6 +74,15 @@ pub fn check(c: &Case) -> CheckResult {
         (_, SenderPos::AbsentCaseVariantPresent) => vec![(&variant, false), (&id.bob, true), (&id.carol, false)],
         (_, SenderPos::OnlyWithRecipient) => vec![(&id.bob, true), (&id.alice, false)],
     };
+    // keyrings whose names are related as prefixes, and a sender entry with a long name next to one named like its beginning
+    let mk = |name: &str, seed: u8| CliIdent { name: name.into(), sk: [0; 32], pk: kspec::x25519_base(&[seed; 32]), epk: kspec::encode_public_key(&kspec::x25519_base(&[seed; 32])), esk: String::new(), password: String::new() };
+    let (bobby, al, alice2, bo) = (mk("bobby", 21), mk("al", 22), mk("alice2", 23), mk("bo", 24));
+    let long_alice = CliIdent { name: format!("alice{}", "-of-the-long-department-name".repeat(4)).chars().take(99).collect(), ..id.alice.clone() };
+    let short_twin = mk(&long_alice.name.chars().take(60).collect::<String>(), 25);
+    let mut entries = entries;
+    if c.names == 1 { let mut e2: Vec<(&CliIdent, bool)> = vec![(&bobby, false), (&alice2, false)]; e2.extend(entries.iter().cloned()); e2.push((&al, false)); e2.push((&bo, false)); entries = e2; }
+    if c.names == 2 { for e in entries.iter_mut() { if std::ptr::eq(e.0, &id.alice) { e.0 = &long_alice; } } entries.insert(0, (&short_twin, false)); }
+    let sender_name: &str = if c.names == 2 { &long_alice.name } else { "alice" };
     let kr = cli::keyring_text(&entries);
     // the presented file and what must come of it, by construction
     let (input, expect_ok, expect_data): (Vec<u8>, bool, Option<Vec<u8>>) = match c.req {
@@ -98,11 +112,12 @@ pub fn check(c: &Case) -> CheckResult {
     let is_dec = matches!(c.req, Req::KeyDec(_) | Req::PassDec(_) | Req::PassDecWrongPw);
     let is_key = matches!(c.req, Req::KeyEnc | Req::KeyDec(_));
     let mut outcomes: Vec<(Wiring, Outcome, String)> = Vec::new();
-    let mut wirings: Vec<(Wiring, bool, u8)> = c.wirings.iter().map(|w| (*w, false, 0u8)).collect();
-    if c.typed && c.sink == Sink::Healthy && cli::pty_available() && !matches!(c.req, Req::PassDecWrongPw) { wirings.push((wiring_from(0), true, 0)); }
-    if c.sink == Sink::Healthy { for (i, k) in c.out_kinds.iter().enumerate() { if (1..=3).contains(k) { let mut w = wiring_from((c.sel as usize >> (6 * i)) & 63); w.stdout_out = false; wirings.push((w, false, *k)); } } }
-    for (w, typed, okind) in &wirings {
-        let (typed, okind) = (*typed, *okind);
+    let mut wirings: Vec<(Wiring, bool, u8, u8)> = c.wirings.iter().map(|w| (*w, false, 0u8, 0u8)).collect();
+    if c.typed && c.sink == Sink::Healthy && cli::pty_available() && !matches!(c.req, Req::PassDecWrongPw) { wirings.push((wiring_from(0), true, 0, 0)); }
+    if c.sink == Sink::Healthy { for (i, k) in c.out_kinds.iter().enumerate() { if (1..=3).contains(k) { let mut w = wiring_from((c.sel as usize >> (6 * i)) & 63); w.stdout_out = false; wirings.push((w, false, *k, 0)); } } }
+    for (i, k) in c.in_kinds.iter().enumerate() { if (1..=4).contains(k) { let mut w = wiring_from((c.sel as usize >> (5 * i + 3)) & 63); w.stdin_in = false; wirings.push((w, false, 0, *k)); } }
+    for (w, typed, okind, ikind) in &wirings {
+        let (typed, okind, ikind) = (*typed, *okind, *ikind);
         let sb = Sandbox::new();
         let in_name = ["in.bin", "enc", "dec", "pass", "gen", "key", "encrypt", "password"][c.in_name as usize % 8];
         sb.write(in_name, &input); sb.write("keys.txt", kr.as_bytes());
@@ -118,13 +133,14 @@ pub fn check(c: &Case) -> CheckResult {
         let mut opts: Vec<String> = Vec::new();
         let o = |l: &str, s: &str| -> String { if w.short_opts { format!("-{}", s) } else { format!("--{}", l) } };
         if is_key { opts.push(o("to", "t")); opts.push("bob".into()); }
-        if c.req == Req::KeyEnc { opts.push(o("from", "f")); opts.push("alice".into()); }
+        if c.req == Req::KeyEnc { opts.push(o("from", "f")); opts.push(sender_name.into()); }
         let sink_special = c.sink != Sink::Healthy;
         let to_stdout = w.stdout_out || sink_special;
         if !to_stdout { opts.push(o("output", "o")); opts.push(["out.bin", "/dev/stdout", "out.fifo", "/dev/null"][okind as usize].into()); }
         if is_key && !w.env_keyring { opts.push(o("keyring", "k")); opts.push("keys.txt".into()); }
         if !typed { opts.push("--env-pass".into()); }
-        let file_arg: Vec<String> = if w.stdin_in { vec![] } else { vec![in_name.into()] };
+        if ikind == 3 { let _ = std::os::unix::fs::symlink(sb.path(in_name), sb.path("in.lnk")); }
+        let file_arg: Vec<String> = if w.stdin_in { vec![] } else { vec![match ikind { 1 => "in.fifo".to_string(), 2 => "/dev/stdin".to_string(), 3 => "in.lnk".to_string(), 4 => sb.path(in_name).to_string_lossy().into_owned(), _ => in_name.to_string() }] };
         if w.opts_first { a.extend(opts); a.extend(file_arg); } else { a.extend(file_arg); a.extend(opts); }
         let ar: Vec<&str> = a.iter().map(|s| s.as_str()).collect();
         let mut cmd = sb.cmd(&ar);
@@ -134,6 +150,8 @@ pub fn check(c: &Case) -> CheckResult {
         // -k names the keyring; an unrelated KESTREL_KEYRING in the environment must not matter (USAGE: the variable is the fallback)
         if is_key && !w.env_keyring && c.env_decoy > 0 { cmd.env.push(("KESTREL_KEYRING".into(), if c.env_decoy == 1 { "no-such-keyring.txt".into() } else { sb.path("decoy.txt").to_string_lossy().into_owned() })); }
         if w.stdin_in { cmd.stdin = In::File(sb.path(in_name)); }
+        if ikind == 1 { cmd.fifos.push(("in.fifo".into(), input.clone(), vec![input.len() / 3 + 1, 7, 70_000])); }
+        if ikind == 2 { cmd.stdin = In::Pipe(input.clone(), vec![input.len() / 2 + 1, 70_000]); }
         cmd.stdout = match c.sink { Sink::DevFull => Out::DevFull, Sink::ClosedPipe => Out::ClosedPipe, Sink::Healthy => if okind == 1 { Out::PipeCapture } else { Out::Capture } };
         if okind == 2 { cmd.out_fifos.push("out.fifo".into()); }
         let mut r = cmd.run();
@@ -145,7 +163,7 @@ pub fn check(c: &Case) -> CheckResult {
         // an untouched pre-existing file means the run delivered nothing
         if !to_stdout && prior.is_some() && data == prior { data = None; }
         if !to_stdout && okind != 1 { ensure!(r.stdout.is_empty(), "[{:?}] data on stdout although -o was given", w); }
-        let w = &(*w, ["", "-o /dev/stdout (a pipe)", "-o <named pipe>", "-o /dev/null"][okind as usize]);
+        let w = &(*w, ["", "-o /dev/stdout (a pipe)", "-o <named pipe>", "-o /dev/null"][okind as usize], ["", "FILE = named pipe", "FILE = /dev/stdin (a pipe)", "FILE = symbolic link", "FILE = absolute path"][ikind as usize]);
         let err = r.stderr_s();
         let sender_line = err.lines().map(|l| l.trim()).find(|l| l.starts_with("Success. File from:") || l.starts_with("Unknown key:")).map(|s| s.to_string());
         // (1) exit status = what the request is by construction
@@ -171,7 +189,7 @@ pub fn check(c: &Case) -> CheckResult {
             }
             // (3) sender line
             if let Req::KeyDec(_) = c.req {
-                let want = if matches!(c.pos, SenderPos::Absent | SenderPos::AbsentCaseVariantPresent) { format!("Unknown key: {}", id.alice.epk) } else { "Success. File from: alice".to_string() };
+                let want = if matches!(c.pos, SenderPos::Absent | SenderPos::AbsentCaseVariantPresent) { format!("Unknown key: {}", id.alice.epk) } else { format!("Success. File from: {}", sender_name) };
                 ensure!(sender_line.as_deref() == Some(want.as_str()), "[{:?}] after a successful decryption stderr says {:?}, expected {:?}", w, sender_line, want);
                 if matches!(c.pos, SenderPos::Absent | SenderPos::AbsentCaseVariantPresent) { ensure!(err.contains("unknown key"), "unknown sender not reported as such"); }
             }
@@ -204,7 +222,7 @@ pub fn strat() -> impl Strategy<Value = Case> {
     let plain = prop_oneof![1 => any::<u64>().prop_map(|seed| Plain { len: 0, seed }), 6 => gen::small_plain(300), 1 => gen::plain_strategy(200_000)];
     (req, plain, proptest::collection::vec(1usize..60, 0..5), prop_oneof![Just(SenderPos::First), Just(SenderPos::Last), Just(SenderPos::Absent), Just(SenderPos::OnlyWithRecipient), Just(SenderPos::AbsentCaseVariantPresent)], proptest::collection::vec((0usize..64).prop_map(wiring_from), 2..4), prop_oneof![8 => Just(Sink::Healthy), 1 => Just(Sink::DevFull), 1 => Just(Sink::ClosedPipe)], any::<u64>())
         .prop_flat_map(|(req, plain, chunks, pos, wirings, sink, sel)| (Just((req, plain, chunks, pos, wirings, sink, sel)), proptest::option::weighted(0.35, any::<u16>()), prop_oneof![3 => Just(0u8), 1 => Just(1u8), 1 => Just(2u8)]))
-        .prop_map(|((req, plain, chunks, pos, mut wirings, sink, sel), prior_out, env_decoy)| { wirings.insert(0, wiring_from(0)); Case { req, plain, chunks, pos, wirings, sink, sel, prior_out: prior_out.map(|x| x % 3000), env_decoy, in_name: if sel % 4 == 0 { (sel >> 8) as u8 } else { 0 }, typed: sel % 3 == 0, out_kinds: if sel % 5 < 2 { vec![1 + ((sel >> 12) % 3) as u8] } else { vec![] } } })
+        .prop_map(|((req, plain, chunks, pos, mut wirings, sink, sel), prior_out, env_decoy)| { wirings.insert(0, wiring_from(0)); Case { req, plain, chunks, pos, wirings, sink, sel, prior_out: prior_out.map(|x| x % 3000), env_decoy, in_name: if sel % 4 == 0 { (sel >> 8) as u8 } else { 0 }, typed: sel % 3 == 0, out_kinds: if sel % 5 < 2 { vec![1 + ((sel >> 12) % 3) as u8] } else { vec![] }, in_kinds: if sel % 7 < 2 { vec![1 + ((sel >> 16) % 4) as u8] } else { vec![] }, names: if sel % 11 < 3 { 1 + ((sel >> 20) % 2) as u8 } else { 0 } } })
 }
 
 pub fn run(ctx: &Ctx) {
@@ -215,14 +233,15 @@ pub fn run(ctx: &Ctx) {
     let all: Vec<Wiring> = (0..64).map(wiring_from).collect();
     let mut sse = Vec::new();
     for (i, req) in [Req::KeyEnc, Req::KeyDec(FileKind::Authentic), Req::KeyDec(FileKind::CorruptLater), Req::PassEnc, Req::PassDec(FileKind::Authentic)].into_iter().enumerate() {
-        for chunk in all.chunks(8) { sse.push(Case { req, plain: Plain { len: 23, seed: ctx.seed + i as u64 }, chunks: vec![5, 6, 7], pos: SenderPos::Last, wirings: std::iter::once(wiring_from(0)).chain(chunk.iter().cloned()).collect(), sink: Sink::Healthy, sel: ctx.seed, prior_out: None, env_decoy: 0, in_name: 0, typed: false, out_kinds: vec![] }); }
+        for chunk in all.chunks(8) { sse.push(Case { req, plain: Plain { len: 23, seed: ctx.seed + i as u64 }, chunks: vec![5, 6, 7], pos: SenderPos::Last, wirings: std::iter::once(wiring_from(0)).chain(chunk.iter().cloned()).collect(), sink: Sink::Healthy, sel: ctx.seed, prior_out: None, env_decoy: 0, in_name: 0, typed: false, out_kinds: vec![], in_kinds: vec![], names: 0 }); }
     }
     // the empty plaintext and the look-alike keyring entry, deterministically
-    for req in [Req::KeyDec(FileKind::Authentic), Req::PassDec(FileKind::Authentic), Req::KeyEnc, Req::PassEnc] { sse.push(Case { req, plain: Plain { len: 0, seed: 1 }, chunks: vec![], pos: SenderPos::First, wirings: vec![wiring_from(0), wiring_from(2), wiring_from(3)], sink: Sink::Healthy, sel: 5, prior_out: Some(40), env_decoy: 0, in_name: 0, typed: false, out_kinds: vec![] }); }
-    sse.push(Case { req: Req::KeyDec(FileKind::Authentic), plain: Plain { len: 40, seed: 2 }, chunks: vec![9], pos: SenderPos::AbsentCaseVariantPresent, wirings: vec![wiring_from(0), wiring_from(6)], sink: Sink::Healthy, sel: 6, prior_out: None, env_decoy: 2, in_name: 0, typed: false, out_kinds: vec![] });
-    for (i, req) in [Req::KeyDec(FileKind::Authentic), Req::KeyEnc, Req::PassDec(FileKind::Authentic), Req::PassEnc].into_iter().enumerate() { for in_name in 1..8u8 { sse.push(Case { req, plain: Plain { len: 25, seed: 30 + i as u64 }, chunks: vec![9], pos: SenderPos::First, wirings: vec![wiring_from(0), wiring_from(32), wiring_from(1)], sink: Sink::Healthy, sel: 8, prior_out: None, env_decoy: 0, in_name, typed: false, out_kinds: vec![] }); } }
-    for (i, req) in [Req::KeyDec(FileKind::Authentic), Req::KeyEnc, Req::PassDec(FileKind::Authentic), Req::PassEnc, Req::KeyDec(FileKind::CorruptLater)].into_iter().enumerate() { sse.push(Case { req, plain: Plain { len: 30, seed: 3 + i as u64 }, chunks: vec![8, 9], pos: SenderPos::Last, wirings: vec![wiring_from(0), wiring_from(2), wiring_from(8)], sink: Sink::Healthy, sel: 7, prior_out: Some(500), env_decoy: 1 + (i as u8 % 2), in_name: 0, typed: false, out_kinds: vec![] }); }
-    for (i, req) in [Req::KeyEnc, Req::KeyDec(FileKind::Authentic), Req::KeyDec(FileKind::CorruptLater), Req::PassEnc, Req::PassDec(FileKind::Authentic), Req::PassDec(FileKind::CorruptFirst)].into_iter().enumerate() { for len in [30usize, 70_000] { sse.push(Case { req, plain: Plain { len, seed: 50 + i as u64 }, chunks: vec![], pos: SenderPos::First, wirings: vec![wiring_from(0)], sink: Sink::Healthy, sel: 9 + 64 * 21 + 4096 * 42, prior_out: None, env_decoy: 0, in_name: 0, typed: false, out_kinds: vec![1, 2, 3] }); } }
+    for req in [Req::KeyDec(FileKind::Authentic), Req::PassDec(FileKind::Authentic), Req::KeyEnc, Req::PassEnc] { sse.push(Case { req, plain: Plain { len: 0, seed: 1 }, chunks: vec![], pos: SenderPos::First, wirings: vec![wiring_from(0), wiring_from(2), wiring_from(3)], sink: Sink::Healthy, sel: 5, prior_out: Some(40), env_decoy: 0, in_name: 0, typed: false, out_kinds: vec![], in_kinds: vec![], names: 0 }); }
+    sse.push(Case { req: Req::KeyDec(FileKind::Authentic), plain: Plain { len: 40, seed: 2 }, chunks: vec![9], pos: SenderPos::AbsentCaseVariantPresent, wirings: vec![wiring_from(0), wiring_from(6)], sink: Sink::Healthy, sel: 6, prior_out: None, env_decoy: 2, in_name: 0, typed: false, out_kinds: vec![], in_kinds: vec![], names: 0 });
+    for (i, req) in [Req::KeyDec(FileKind::Authentic), Req::KeyEnc, Req::PassDec(FileKind::Authentic), Req::PassEnc].into_iter().enumerate() { for in_name in 1..8u8 { sse.push(Case { req, plain: Plain { len: 25, seed: 30 + i as u64 }, chunks: vec![9], pos: SenderPos::First, wirings: vec![wiring_from(0), wiring_from(32), wiring_from(1)], sink: Sink::Healthy, sel: 8, prior_out: None, env_decoy: 0, in_name, typed: false, out_kinds: vec![], in_kinds: vec![], names: 0 }); } }
+    for (i, req) in [Req::KeyDec(FileKind::Authentic), Req::KeyEnc, Req::PassDec(FileKind::Authentic), Req::PassEnc, Req::KeyDec(FileKind::CorruptLater)].into_iter().enumerate() { sse.push(Case { req, plain: Plain { len: 30, seed: 3 + i as u64 }, chunks: vec![8, 9], pos: SenderPos::Last, wirings: vec![wiring_from(0), wiring_from(2), wiring_from(8)], sink: Sink::Healthy, sel: 7, prior_out: Some(500), env_decoy: 1 + (i as u8 % 2), in_name: 0, typed: false, out_kinds: vec![], in_kinds: vec![], names: 0 }); }
+    for (i, req) in [Req::KeyEnc, Req::KeyDec(FileKind::Authentic), Req::KeyDec(FileKind::CorruptLater), Req::PassEnc, Req::PassDec(FileKind::Authentic), Req::PassDec(FileKind::CorruptFirst)].into_iter().enumerate() { for len in [30usize, 70_000] { sse.push(Case { req, plain: Plain { len, seed: 50 + i as u64 }, chunks: vec![], pos: SenderPos::First, wirings: vec![wiring_from(0)], sink: Sink::Healthy, sel: 9 + 64 * 21 + 4096 * 42, prior_out: None, env_decoy: 0, in_name: 0, typed: false, out_kinds: vec![1, 2, 3], in_kinds: vec![1, 2, 3, 4], names: 0 }); } }
+    for (i, req) in [Req::KeyEnc, Req::KeyDec(FileKind::Authentic), Req::KeyDec(FileKind::CorruptLater)].into_iter().enumerate() { for names in 1..=2u8 { for pos in [SenderPos::First, SenderPos::Last] { sse.push(Case { req, plain: Plain { len: 33, seed: 60 + i as u64 }, chunks: vec![], pos, wirings: vec![wiring_from(0), wiring_from(4), wiring_from(8)], sink: Sink::Healthy, sel: 12, prior_out: None, env_decoy: 0, in_name: 0, typed: names == 2, out_kinds: vec![], in_kinds: vec![], names }); } } }
     ctx.sse_vec("all_wirings", "5 requests x all 64 wiring combinations (8 per case, each compared with the canonical wiring)", sse, check);
     ctx.pbt("requests_x_wirings", ctx.n(320, 8_000), strat, check);
 }
